@@ -16,7 +16,8 @@ type objects struct {
 	lsrc  string
 	lctx  interface{}
 	lfile bool
-	lset  bool // SetContext was called on the lexer since it was created (possibly with nil)
+	lbuf  []byte // the used lexer's source buffer (nil for file-backed lexers)
+	lset  bool   // SetContext was called on the lexer since it was created (possibly with nil)
 	usedP bool
 	cache tokCache
 }
@@ -68,11 +69,32 @@ func (e *env) execOps(ops []Op, o *objects, sess *act.Session, budget int64, per
 			if !e.g.HasLexer() {
 				continue
 			}
-			o.l = e.lexerFor(op.In.Text, op.In.FromFile)
+			o.lbuf = nil
+			if op.In.FromFile {
+				o.l = e.lexerFor(op.In.Text, true)
+			} else {
+				o.lbuf = newGuardedSrc(op.In.Text)
+				o.l = e.g.NewLexer(o.lbuf)
+			}
 			o.lsrc = op.In.Text
 			o.lfile = op.In.FromFile
 			o.lctx = nil
 			o.lset = false
+		case "lexrefill":
+			// the caller refills the SAME buffer with other text of the same length and
+			// rewinds the lexer (a reused read buffer)
+			if o.l == nil || o.lfile || o.lbuf == nil {
+				continue
+			}
+			nt := []byte(op.In.Text)
+			for i := range o.lbuf {
+				if i < len(nt) {
+					o.lbuf[i] = nt[i]
+				} else {
+					o.lbuf[i] = ' '
+				}
+			}
+			o.lsrc = string(o.lbuf)
 		case "lexscan":
 			if o.l == nil {
 				continue
